@@ -1619,6 +1619,12 @@ pub fn oracle_compound(sp: &Sp, real: &RealSp, a: &St, b: &St, t: f64, out: &mut
         }
         if ok && acc.sqrt().to_bits() != l.to_bits() {
             out.push(finding("C13", "resolution_law", format!("{sp:?}: longest valid segment {l} but the weighted combination is {}", acc.sqrt())));
+            // the motion-check resolution of C03 IS this length: a compound space that reports a longer one than the
+            // law gives makes every planner sample its motions more coarsely than configured
+            if l > acc.sqrt() {
+                out.push(finding("C18", "edge_validation_too_coarse", format!("{sp:?}: longest valid segment {l} exceeds sqrt(sum (w_i l_i)^2) = {}: roadmap edges are validated at a coarser resolution than configured", acc.sqrt())));
+                out.push(finding("C03", "compound_resolution_too_coarse", format!("{sp:?}: longest valid segment {l} exceeds sqrt(sum (w_i l_i)^2) = {}: motions are checked at a coarser resolution than the subspaces' settings give", acc.sqrt())));
+            }
         }
     }
     // SE(2)/SE(3) behave exactly as the compound of their parts with weights (1, w)
